@@ -10,10 +10,18 @@ RULE = ('token bucket: dyadic rates 1/8..64 x arrival patterns (bursts, steady j
         'retry sleeps of exactly 1 s and longer) with every limit() call driven on a virtual clock; throttle handler: '
         'response sequences around sample_size and the percentage threshold, allow_request before/at/after the window '
         'end, several windows. distinct-nontrivial = distinct (object, rate class / threshold class, number of refusals '
-        'bucket, refill-happened?, window-reset-happened?, outcome class)')
+        'bucket, refill-happened?, window-reset-happened?, outcome class). Session level: the real ESME.start() on the '
+        'virtual-time loop with the real handler and limiter plugged in through recording subclasses, a scripted SMSC answering '
+        'with throttled / queue-full / other statuses, multi-segment messages, a store or hook that suspends the Sender '
+        'between segments: the observed trace (feeds, consultations, submit_sm writes) goes to the gate monitor (gate.mon), '
+        'to the Sender model (gate.sender, when nothing suspends between consultation and write) and to an independent '
+        'predicate (answers, one consultation per PDU, one feed per response, re-consultation after throttle_wait, rate bound '
+        'on the wire, everything sent when never denied)')
 TRUSTED = ['Lean 4.33.0 kernel', 'axioms: propext, Classical.choice, Quot.sound (Mathlib linarith/ring on Rat)',
            'IEEE-754 doubles: exactness enforced by dyadic times/rates in the generator, not proved',
-           'tools/corr/c18.py (virtual clock patched into ratelimiter.time / throttle.time, asyncio.sleep patched)']
+           'tools/corr/c18.py (virtual clock patched into ratelimiter.time / throttle.time, asyncio.sleep patched)',
+           'tools/corr/c18s.py + tools/sim/simlib.py (virtual-time event loop, scripted SMSC, recording subclasses of '
+           'SimpleThrottleHandler / SimpleRateLimiter / SimpleCorrelator)']
 ASSUMPTIONS = ['time.monotonic is the only clock the two objects read; asyncio.sleep(d) resumes after at least d',
                'effective_send_rate and logging do not influence decisions',
                'percentages are compared at the 0.01 resolution of round(x, 2); inputs within 0.005 of the threshold are '
@@ -219,9 +227,14 @@ def generate(rng, tier):
                                     (50, 1, 3, 200), (50, 1, 201, 20000)):
         ops = [('t',)] * thr + [('n',)] * (tot - thr) + [('a', 10)]
         yield throttle_case(180 * Q, sample, Fraction(deny), 0, ops)
+    from corr import c18s
+    yield from c18s.generate(rng, tier)
 
 
 def replay(inp):
+    if inp['op'] == 'session-gate':
+        from corr import c18s
+        return c18s.cases_of(dict(inp['scenario']))[0]
     if inp['op'] == 'bucket':
         return bucket_case(Fraction(inp['rate']), inp['t0'], inp['arrivals'], inp['sleeps'])
     return throttle_case(inp['period'], Fraction(inp['sample']), Fraction(inp['deny']), inp['t0'],
